@@ -35,7 +35,7 @@ EXPLANATION = ("Theorems over every profile: margins are antisymmetric and follo
                "tier strictly beats every member of a lower one, no tier can be split, the top tier is contained in every "
                "dominating set, it is a single candidate iff a Condorcet winner exists, DominatingSets elects it.")
 
-N_QUICK, N_THOROUGH = 1200, 14400
+N_QUICK, N_THOROUGH = 1200, 43200
 
 
 def cycle_spec(rng):
